@@ -74,4 +74,9 @@ def mkBasis (arities : List Nat) (ncoeffs : Nat) : R Unit :=
     else if ncoeffs ≠ (a :: rest).length then .error (.value "Coefficients must be same length as maps.")
     else .ok ()
 
+/-- the classical-bit guard of `cut_gates` (hence of `find_cuts`, which marks its gate cuts through it) and of `partition_problem`:
+`nregs` = number of classical registers, `nbits` = number of classical bits (registered or not) -/
+def checkNoClassical (nregs nbits : Nat) : R Unit :=
+  if nregs ≠ 0 ∨ nbits ≠ 0 then .error (.value "Circuits input to cut_gates should contain no classical registers or bits.") else .ok ()
+
 end CKT.Validation
